@@ -156,18 +156,14 @@ Sym(k, v) == [k |-> k, v |-> v, raw |-> TRUE]
 New(k, v) == [k |-> k, v |-> v, raw |-> FALSE]
 
 Has(s, ks) == \E i \in 1..Len(s) : s[i].k \in ks
-Level(s, up, down) ==
-  LET f[i \in 0..Len(s)] ==
-        IF i = 0 THEN 0
-        ELSE IF f[i-1] < 0 THEN f[i-1]
-        ELSE IF s[i].k = up THEN f[i-1] + 1
-        ELSE IF s[i].k = down THEN f[i-1] - 1
-        ELSE f[i-1]
-  IN f[Len(s)]
+Count(s, k, i) == Cardinality({j \in 1..i : s[j].k = k})
+\* the tags `up` ... `down` nest properly: never more ends than openers, as many in the end
+Nested(s, up, down) == /\ \A i \in 1..Len(s) : Count(s, up, i) >= Count(s, down, i)
+                       /\ Count(s, up, Len(s)) = Count(s, down, Len(s))
 \* every {% component %} has its {% endcomponent %}: these tags are new syntax already
-Balanced(s) == Level(s, "C", "E") = 0
+Balanced(s) == Nested(s, "C", "E")
 \* every old block opener has its end
-BlocksBalanced(s) == Level(s, "OO", "OC") = 0
+BlocksBalanced(s) == Nested(s, "OO", "OC")
 \* What the file means is determined when the old blocks are well formed and its {% component %} tags
 \* are all closed (new syntax, possibly with old blocks left) or none is (old syntax: no
 \* {% endcomponent %}, no self-closing tag).  A file that mixes closed and unclosed {% component %} tags
